@@ -897,6 +897,16 @@ func Concurrent(d *fw.Driver, res *fw.Result, seed int64, thorough bool) error {
 			}
 			time.Sleep(200 * time.Microsecond)
 		}
+		// "any number of calls in flight concurrently": all of them must be running at the same time
+		entered := 0
+		for i := 0; i < j.n; i++ {
+			if run.E.H.C.Entered(base+i) > 0 {
+				entered++
+			}
+		}
+		if entered < j.n {
+			res.Add(fw.Finding{Kind: "monitor", Signature: sig + " calls not concurrent", Detail: fmt.Sprintf("only %d of %d concurrent calls reached their handler within 5s while the others were still running: the number of calls in flight is capped", entered, j.n)})
+		}
 		for _, k := range j.order {
 			run.E.H.C.Release(base + k)
 			if r.Intn(2) == 0 {
